@@ -577,7 +577,8 @@ fn is_stack_death(class: &str) -> bool {
     class == "signal:SIGABRT" || class == "signal:SIGSEGV"
 }
 
-pub const MATCHERS: [&str; 21] = [
+pub const MATCHERS: [&str; 22] = [
+    "jit_relocation_out_of_range",
     "stack_overflow_in_long_declaration_chain",
     "const_initialiser_code_dies_at_compile_time",
     "runtime_function_signature_per_call_site",
@@ -722,6 +723,14 @@ pub fn matches_parts(matcher: &str, class: &str, c: &Value) -> bool {
                     || (class.starts_with("panic:src/lir/lower/clones.rs:") && msg.starts_with("called `Option::unwrap()` on a `None` value"))
                     || (class.starts_with("panic:src/codegen/mod.rs:")
                         && (msg.starts_with("Internal compiler error: did not find Var") || msg.starts_with("no entry found for key"))))
+        }
+        // audit of C11 (V1): every function body and data object is its own heap allocation and
+        // they are linked with 32-bit PC-relative relocations that cranelift-jit unwraps
+        "jit_relocation_out_of_range" => {
+            let g = &c["generated_by"];
+            class.contains("cranelift-jit") && class.contains("compiled_blob.rs")
+                && g["repeater"].as_str().is_some_and(|r| r.starts_with("huge:"))
+                && g["n"].as_u64().is_some_and(|n| n >= 55)
         }
         // audit V5: the type DAG is expanded as a tree (TypeInfo::convert, occurs, ==, display)
         "type_dag_expanded_as_tree" => {
